@@ -549,6 +549,7 @@ func genA(t *rapid.T) History {
 	}
 	n := rapid.IntRange(0, 25).Draw(t, "nops")
 	h.Ops = append(h.Ops, genOps(t, n, len(h.Agents), true)...)
+	h.Ops = withCrafted(t, h.Ops, nreg)
 	return h
 }
 
@@ -559,6 +560,8 @@ type hsum struct {
 	numClass                                         string
 	lkinds                                           map[string]bool
 	ledit, lremove, checkin, markalive, lcollide      bool
+	tags                                             map[string]bool
+	craftedLast                                      bool
 	effective                                        int
 }
 
@@ -582,7 +585,10 @@ func numClassOf(s string) string {
 }
 
 func summarizeH(h History) hsum {
-	s := hsum{lkinds: map[string]bool{}}
+	s := hsum{lkinds: map[string]bool{}, tags: map[string]bool{}}
+	if n := len(h.Ops); n > 0 && h.Ops[n-1].T != "" {
+		s.craftedLast = true
+	}
 	known := map[int]bool{}
 	parent := map[int]int{}
 	note := func(m Meta) {
@@ -661,6 +667,12 @@ func summarizeH(h History) hsum {
 			continue
 		}
 		s.effective++
+		if op.T != "" {
+			s.tags[strings.TrimSuffix(op.T, "/noop")] = true
+			if strings.HasSuffix(op.T, "/noop") {
+				s.tags["noop-update"] = true
+			}
+		}
 		switch op.K {
 		case "connect":
 			if op.B < 0 || op.B >= len(h.Agents) || op.B == op.A {
@@ -736,6 +748,10 @@ func classifyH(h History) core.Class {
 	add(s.ledit, "listener-edit")
 	add(s.lremove, "listener-removed")
 	add(s.lcollide, "listener-names-colliding")
+	for tg := range s.tags {
+		cl.Labels = append(cl.Labels, "upd:"+tg)
+	}
+	add(s.craftedLast && len(s.tags) > 0, "upd:reopen-right-after")
 	add(true, "db:"+h.dbMode())
 	var lk []string
 	for k := range s.lkinds {
@@ -792,7 +808,7 @@ func dedup(in []string) []string {
 func TestC10a(t *testing.T) {
 	core.Run(t, core.Spec[History]{
 		Property: "C10", Sub: "a",
-		Rule: "histories of 1-5 registrations followed by 0-25 operations over 1-5 agents (database file, a third each: fresh / created by the current code and opened again / a copy of the committed testdata/golden-schema.db made by the unchanged tree - labels db:fresh|existed|golden; a violation on the golden file only, while its schema differs from a fresh one, is reported as schema|existing-database-differs-from-fresh|<tables>; ids over the whole 32-bit range incl. >= 2^31; metadata strings from {plain, digit-only, leading zeros, exponent-like, hex-like, whitespace-padded, empty, non-ASCII, quotes/SQL, decimal/signed/huge numbers, 300-9000 bytes}): reg, poll, pivot connect/disconnect, COMMAND_CHECKIN with new metadata and key, sleep / kill-date / working-hours callbacks, exit, kill-date, operator mark dead/alive, listener add (SMB, External; HTTP on an ephemeral port at ~1/20 of adds; names, and a third of the pipe names / endpoints, mostly from one per-history family of strings that differ but collide under ASCII/Unicode case, LIKE/glob wildcards vs literal characters, leading/trailing blanks, prefixes, Unicode normalisation or SQL quoting - label listener-names-colliding = two such listeners coexist) / remove / HTTP edit through the operator's DispatchEvent path; then a fresh db.DatabaseNew on the same file read with AgentAll/ParentOf/LinksOf/ListenerAll. Oracle: restored agents == active sessions of the running server, 25 columns equal byte for byte incl. key and IV; ParentOf/LinksOf == the server's Links lists; listener rows == listeners present with every operator-configured field equal. Non-trivial: a death, a link change or a numeric-looking string before the reopen; distinct = (death, link none/add/add+remove, numeric class, listener kinds, edit, id>=2^31)",
+		Rule: "histories of 1-5 registrations followed by 0-25 operations over 1-5 agents (database file, a third each: fresh / created by the current code and opened again / a copy of the committed testdata/golden-schema.db made by the unchanged tree - labels db:fresh|existed|golden; a violation on the golden file only, while its schema differs from a fresh one, is reported as schema|existing-database-differs-from-fresh|<tables>; ids over the whole 32-bit range incl. >= 2^31; metadata strings from {plain, digit-only, leading zeros, exponent-like, hex-like, whitespace-padded, empty, non-ASCII, quotes/SQL, decimal/signed/huge numbers, 300-9000 bytes}): reg, poll, pivot connect/disconnect, COMMAND_CHECKIN with new metadata and key, sleep / kill-date / working-hours callbacks, exit, kill-date, operator mark dead/alive, listener add (SMB, External; HTTP on an ephemeral port at ~1/20 of adds; names, and a third of the pipe names / endpoints, mostly from one per-history family of strings that differ but collide under ASCII/Unicode case, LIKE/glob wildcards vs literal characters, leading/trailing blanks, prefixes, Unicode normalisation or SQL quoting - label listener-names-colliding = two such listeners coexist) / remove / HTTP edit through the operator's DispatchEvent path; about half of the histories also contain one family of crafted updates of one agent (labels upd:*), mostly as the last operations so that the reopen follows at once: BOUNDARY SHIFT - two consecutive updates (key-preserving check-ins, or sleep callbacks) whose rows differ only by characters/digits moved across the boundary of two columns adjacent in the write order of db.AgentUpdate or in agent.AgentInfo (e.g. Username|DomainName bob|'' -> ''|bob, SleepDelay|SleepJitter 1|20 -> 12|0, ProcessName|BaseAddress svc1|23 -> svc|123), everything else incl. LastCallIn byte-identical; SWAP of two same-typed columns; NO-OP update(s) followed by a real one; REVERT A->B->A; each optionally interleaved with repeated identical updates; then a fresh db.DatabaseNew on the same file read with AgentAll/ParentOf/LinksOf/ListenerAll. Oracle: restored agents == active sessions of the running server, 25 columns equal byte for byte incl. key and IV; ParentOf/LinksOf == the server's Links lists; listener rows == listeners present with every operator-configured field equal. Non-trivial: a death, a link change or a numeric-looking string before the reopen; distinct = (death, link none/add/add+remove, numeric class, listener kinds, edit, id>=2^31)",
 		Gen:   genA, Check: checkA, Classify: classifyH,
 		Assumptions: []string{
 			"reference for 'what had happened' is the state the running server holds in memory when the last operation returned; callbacks are delivered through agent.TaskDispatch, registrations and polls through handlers.(*External).Request",
